@@ -45,6 +45,34 @@ B = [
   "        TlsRecordType::Handshake        => many1(complete(parse_tls_message_handshake))(i),",
   "        TlsRecordType::Handshake        => { let _scratch: Vec<u8> = Vec::with_capacity(32 * 1024); many1(complete(parse_tls_message_handshake))(i) },",
   "a constant 32 KiB scratch allocation per handshake record (still a fixed linear bound)"),
+ ("b-c01-two-vectors-in-dtls-ccs", ["C01", "C10"], "dtls.rs",
+  "        TlsRecordType::ChangeCipherSpec => many1(complete(parse_dtls_message_changecipherspec))(i),",
+  "        TlsRecordType::ChangeCipherSpec => many1(complete(parse_dtls_message_changecipherspec))(i).map(|(r, v)| { let mut w = Vec::with_capacity(v.len()); w.extend(v); (r, w) }),",
+  "the DTLS ChangeCipherSpec arm moves its messages into a second vector (a steeper but still linear heap use)"),
+ ("b-c01-reset-reserves", ["C01", "C07"], "tls_records_parser.rs",
+  "        *self = Self::default();",
+  "        *self = Self::default();\n        self.record_defrag_buffer.reserve(8 * 16640);",
+  "reset() pre-reserves 130 KiB for the next defragmentation"),
+ ("b-c09-sslv3-no-empty-block", ["C09"], "tls_serialize.rs",
+  "            be_u16(m.cipher.0),\n            be_u8(m.compression.0),\n            maybe_extensions(&m.ext),",
+  "            be_u16(m.cipher.0),\n            be_u8(m.compression.0),\n            move |out| if m.version.0 == 0x0300 && m.ext.is_none() { Ok(out) } else { maybe_extensions(&m.ext)(out) },",
+  "an SSLv3 ServerHello without extensions is serialized without the empty extension block"),
+ ("b-c10-needed-unknown", ["C10", "C16"], "dtls.rs",
+  "    let (i, messages) = map_parser(take(header.length as usize), |i| {\n        parse_dtls_record_with_header(i, &header)\n    })(i)?;",
+  "    if i.len() < header.length as usize {\n        return Err(Err::Incomplete(nom::Needed::Unknown));\n    }\n    let (i, messages) = map_parser(take(header.length as usize), |i| {\n        parse_dtls_record_with_header(i, &header)\n    })(i)?;",
+  "a truncated DTLS record answers Incomplete(Unknown)"),
+ ("b-c10-cap-error-kind", ["C10", "C16"], "dtls.rs",
+  "    if header.length > MAX_RECORD_LEN {\n        return Err(Err::Error(make_error(i, ErrorKind::TooLarge)));",
+  "    if header.length > MAX_RECORD_LEN {\n        return Err(Err::Error(make_error(i, ErrorKind::LengthValue)));",
+  "the DTLS cap is reported with ErrorKind::LengthValue"),
+ ("b-c10-client-hello-version-check", ["C10", "C06"], "dtls.rs",
+  "fn parse_dtls_client_hello(i: &[u8]) -> IResult<&[u8], DTLSMessageHandshakeBody> {\n    let (i, version) = TlsVersion::parse(i)?;",
+  "fn parse_dtls_client_hello(i: &[u8]) -> IResult<&[u8], DTLSMessageHandshakeBody> {\n    let (i, version) = verify(TlsVersion::parse, |v: &TlsVersion| (v.0 >> 8) == 0xfe || v.0 == 0x0100)(i)?;",
+  "the DTLS ClientHello body parser validates its version field"),
+ ("b-c08-empty-session-id-is-absent", ["C08"], "tls_states.rs",
+  "                Some(_) => Ok(TlsState::AskResumeSession),",
+  "                Some(id) if !id.is_empty() => Ok(TlsState::AskResumeSession),",
+  "a ClientHello whose session id is Some(empty) counts as carrying no session id"),
 ]
 
 def sh(cmd):
